@@ -5,7 +5,7 @@ import re
 import socket
 
 from stix2.equivalence.pattern.compare.comparison import (
-    object_path_to_raw_values,
+    STAR_INDEX_STEP, object_path_to_raw_values,
 )
 
 # Dotted-decimal IPv4 addresses and CIDR prefix sizes, in ASCII digits only
@@ -57,7 +57,8 @@ def _path_is(object_path, path_pattern):
             break
 
         elif patt_val is _ANY_IDX:
-            if not isinstance(path_val, int) and path_val != "*":
+            if not isinstance(path_val, int) \
+                    and path_val is not STAR_INDEX_STEP:
                 result = False
                 break
 
